@@ -81,7 +81,7 @@ static struct ad_item g_ad_it0, g_ad_it1, g_ad_it2;      /* separate objects */
 #define AD_IT(k) ((k) == 0 ? &g_ad_it0 : (k) == 1 ? &g_ad_it1 : &g_ad_it2)
 struct ad_ghost {
 	unsigned get_calls, n_out;            /* transport calls / byte strings handed out */
-	unsigned cred_calls;
+	unsigned cred_calls; size_t last_left;  /* what the last successful transport call reported as still queued */
 	int first_fail;                       /* status of the first environment step that reported a failure (KSI_OK = none) */
 	_Bool err_seen; int last_err;         /* an error PDU was met; index of the last one */
 	_Bool used_after_fail;                /* the transport was asked again after a failure was reported */
@@ -114,7 +114,7 @@ int ad_getResponse(void *impl, KSI_OctetString **out, size_t *left) {
 		it->handed_out = 1; it->os.data = &it->byte0; it->os.len = nondet_size(); it->os.k = (int)k;
 		*out = &it->os; g_ad.n_out++;
 	} else *out = NULL;
-	*left = g_ad.get_calls < AD_MAXQ ? nondet_size() : 0;           /* BOUND: the queue is drained after AD_MAXQ calls */
+	*left = g_ad.last_left = g_ad.get_calls < AD_MAXQ ? nondet_size() : 0;           /* BOUND: the queue is drained after AD_MAXQ calls */
 	return KSI_OK;
 }
 int ad_getCredentials(void *impl, const char **user, const char **pass) {
